@@ -75,6 +75,8 @@ def prod(
     """
     a = numpoly.aspolynomial(a)
     assert out is None
+    # like numpy, multiply small integers (and booleans) in the platform integer
+    a = a.astype(numpy.prod(numpy.ones(1, dtype=a.dtype)).dtype)
     if keepdims:
         if axis is None:
             out = _prod(numpoly.reshape(a, -1), axis=0)
